@@ -120,8 +120,11 @@ def isInfix (needle : Str) : Str → Bool
   | [] => needle.isEmpty
   | c :: r => needle.isPrefixOf (c :: r) || isInfix needle r
 
-/-- some attribute value contains `#u` -/
-def hasRef (a : Attrs) (u : Str) : Bool := a.any (fun kv => isInfix ('#' :: u) kv.2)
+def hrefName : Str := "href".toList
+
+/-- some attribute other than `href` has a value containing `#u` (`@*[name() != 'href'][contains(., '#u')]`:
+the `href` of a fragment placeholder is containment, not a reference) -/
+def hasRef (a : Attrs) (u : Str) : Bool := a.any (fun kv => kv.1 != hrefName && isInfix ('#' :: u) kv.2)
 
 def childrenOf (nodes : List Node) (i : Nat) : List Nat :=
   (nodes.zipIdx.filter (fun p => p.1.parent == some i)).map (·.2)
@@ -139,7 +142,7 @@ def hits (nodes : List Node) (u : Str) : List Nat :=
 
 def parentAt (nodes : List Node) (j : Nat) : Option Nat := (nodes[j]?).bind (·.parent)
 
-/-- the XPath `//*[@*[contains(., '#u')] | */@*[contains(., '#u')]]` on the non-visual trees:
+/-- the XPath `//*[@*[name() != 'href'][contains(., '#u')] | */@*[name() != 'href'][contains(., '#u')]]` on the non-visual trees:
 an element is selected if it is a hit itself or the parent of a hit -/
 def prefilter (nodes : List Node) (u : Str) : List Nat :=
   let h := hits nodes u
@@ -249,10 +252,15 @@ def bruteRefsV (nodes : List Node) (val : Nat → Rel → Option (List Nat)) (re
 def bruteRefs (nodes : List Node) (rels : Nat → List Rel) (y : Nat) : List (Nat × Str × Nat) :=
   bruteRefsV nodes (relTargets nodes) rels y
 
-/-- the stored links of child relations contain a `#` (what `create_link` writes; C05) -/
-def LinkShape (nodes : List Node) (rels : Nat → List Rel) : Prop :=
-  ∀ i r tag xt follow, r ∈ rels i → r.kind = .child tag xt follow →
+/-- what the pre-filter relies on: the stored links of child relations contain a `#` (what
+`create_link` writes; C05), and no link-storing relation keeps its links in an XML attribute called
+`href`, which the XPath skips (a fact about the relation table: kernel-checked for every relation of
+every class in `Gen/Hier*.lean`) -/
+structure LinkShape (nodes : List Node) (rels : Nat → List Rel) : Prop where
+  hash : ∀ i r tag xt follow, r ∈ rels i → r.kind = .child tag xt follow →
     ∀ j ∈ childrenOf nodes i, ∀ l, aget (attrsAt nodes j) follow = some l → l ≠ [] → '#' ∈ l
+  nohref : ∀ i r, r ∈ rels i →
+    (∀ a, r.kind = .attr a → a ≠ hrefName) ∧ (∀ tag xt f, r.kind = .child tag xt f → f ≠ hrefName)
 
 /-- does candidate `c` hold `y` in one of the named relations -/
 def holds (nodes : List Node) (rels : Nat → List Rel) (attrs : List Str) (y c : Nat) : Bool :=
